@@ -2,7 +2,7 @@
    resolution) and the whole xls report (property C16, xls). *)
 From Calamine Require Import Prelude BiffSst BiffSst_proofs Meta Meta_proofs MetaXls_proofs
      MetaXlsb_proofs.
-From Calamine Require Col26 Col26_proofs Utf16 Utf16_proofs Ptg NumFmt NumFmt_proofs.
+From Calamine Require Col26 Col26_proofs Utf16 Utf16_proofs Ptg Ptg_proofs NumFmt NumFmt_proofs.
 Open Scope N_scope.
 
 (* ------------------------------------------------------------------------------------- *)
@@ -343,7 +343,8 @@ Proof.
   apply andb_true_iff in Hx. destruct Hx as [Hx Hb2].
   apply andb_true_iff in Hx. destruct Hx as [_ Hb].
   rewrite Hb2. rewrite nthN_map.
-  destruct (nthN_some_ _ shs b ltac:(lia)) as [pm Hp]. rewrite Hp. reflexivity.
+  destruct (nthN_some_ _ shs b ltac:(lia)) as [pm Hp]. rewrite Hp.
+  cbn [option_map]. rewrite Ptg_proofs.quote_sheet_name_spec. reflexivity.
 Qed.
 
 (* ------------------------------------------------------------------------------------- *)
@@ -614,7 +615,7 @@ Definition ex_xlsn_wb : workbook xref :=
         ([20013], XArea Ptg.CVal 0 (Ptg.Build_cref 0 0 false false) (Ptg.Build_cref 9 25 true false));
         ([101], XRefErr Ptg.CArr 0)] true.
 Definition ex_xlsn_c : xls_choice :=
-  mkLc [mkLs 0 false 3; mkLs 10 true 0]
+  mkLc [mkLs 0 false 63; mkLs 10 true 9]
        [mkLn false 0 0 0; mkLn true 32 65 1; mkLn false 0 0 0] [(0, 1, 1); (0, 0, 0)]
        [(225, [176; 4])] [(224, [0; 0; 14; 0])] [] [(255, [])] false [9; 8].
 Lemma xlsn_nonvacuous :
@@ -643,25 +644,25 @@ Qed.
 (* ------------------------------------------------------------------------------------- *)
 (** * totality (C06): the event-level readers never panic and need no fuel *)
 
-Lemma sheet_attrs_no_panic : forall rels a n p v, sheet_attrs rels a n p v <> Panic.
+Lemma sheet_attrs_no_panic : forall rels a n p v rt, sheet_attrs rels a n p v rt <> Panic.
 Proof.
-  induction a as [|[k x] a IH]; intros n p v; cbn [sheet_attrs]; [discriminate|].
+  induction a as [|[k x] a IH]; intros n p v rt; cbn [sheet_attrs]; [discriminate|].
   destruct (str_eqb k a_name); [apply IH|].
   destruct (str_eqb k a_state).
   { destruct (str_eqb x v_visible); [apply IH|]. destruct (str_eqb x v_hidden); [apply IH|].
     destruct (str_eqb x v_veryHidden); [apply IH|discriminate]. }
   destruct (is_rel_id k); [|apply IH].
-  destruct (map_get x rels); [apply IH|discriminate].
+  destruct (map_get x rels) as [[t ty]|]; [apply IH|discriminate].
 Qed.
-Lemma sheet_attrs_no_fuel : forall rels a n p v, sheet_attrs rels a n p v <> OutOfFuel.
+Lemma sheet_attrs_no_fuel : forall rels a n p v rt, sheet_attrs rels a n p v rt <> OutOfFuel.
 Proof.
-  induction a as [|[k x] a IH]; intros n p v; cbn [sheet_attrs]; [discriminate|].
+  induction a as [|[k x] a IH]; intros n p v rt; cbn [sheet_attrs]; [discriminate|].
   destruct (str_eqb k a_name); [apply IH|].
   destruct (str_eqb k a_state).
   { destruct (str_eqb x v_visible); [apply IH|]. destruct (str_eqb x v_hidden); [apply IH|].
     destruct (str_eqb x v_veryHidden); [apply IH|discriminate]. }
   destruct (is_rel_id k); [|apply IH].
-  destruct (map_get x rels); [apply IH|discriminate].
+  destruct (map_get x rels) as [[t ty]|]; [apply IH|discriminate].
 Qed.
 
 Theorem xlsx_wb_run_total : forall rels evs mode st,
@@ -672,11 +673,11 @@ Proof.
   destruct mode as [|q nm val].
   - destruct ev as [n a|n|t|t|]; try apply IH.
     + destruct (str_eqb (local_name n) k_sheet).
-      { destruct (sheet_attrs rels a [] [] Visible) as [[[nm pth] v]|e| |] eqn:E; cbn [obind].
-        - destruct (kind_of_path pth); [apply IH|split; discriminate].
+      { destruct (sheet_attrs rels a [] [] Visible None) as [[[[nm pth] v] rt]|e| |] eqn:E; cbn [obind].
+        - destruct (sheet_kind rt pth); [apply IH|split; discriminate].
         - split; discriminate.
-        - exfalso. exact (sheet_attrs_no_panic _ _ _ _ _ E).
-        - exfalso. exact (sheet_attrs_no_fuel _ _ _ _ _ E). }
+        - exfalso. exact (sheet_attrs_no_panic _ _ _ _ _ _ E).
+        - exfalso. exact (sheet_attrs_no_fuel _ _ _ _ _ _ E). }
       destruct (str_eqb (local_name n) k_workbookPr); [apply IH|].
       destruct (str_eqb (local_name n) k_definedName); [|apply IH].
       destruct (get_attribute a a_name); apply IH.
